@@ -1,0 +1,32 @@
+//go:build verif
+
+// Contracts for the deductive verifier in /verif (comment-only: adds no declarations).
+package twofa
+
+//@ import "encoding/pem"
+//@ import "golang.org/x/crypto/ssh"
+//@ use logging crypto
+
+// ---- C19: the certificate request carries the public half of the key, and nothing else of it ------------------
+// serialisation of the signer's public key produced in this call (DER / SSH public key / their text forms)
+//@ ghost var ghostPublicDER []byte
+//@ ghost var ghostPublicDEROK bool
+//@ ghost var ghostPublicSSH ssh.PublicKey
+//@ ghost var ghostPublicSSHOK bool
+//@ ghost var ghostPublicText []byte
+//@ ghost var ghostPublicTextOK bool
+//@ func doCertRequest
+//@   handler doCertRequest
+//@   atcall crypto/x509.MarshalPKIXPublicKey requires (pub any) :: pub == signerPublic(signer)                              #C19.x509-request-serialises-public-half @C19
+//@   atcall crypto/x509.MarshalPKIXPublicKey sets ghostPublicDER []byte (pub any, der []byte, err2 error) :: der
+//@   atcall crypto/x509.MarshalPKIXPublicKey sets ghostPublicDEROK bool (pub any, der []byte, err2 error) :: err2 == nil && pub == signerPublic(signer)
+//@   atcall encoding/pem.EncodeToMemory requires (b *pem.Block) :: ghostPublicDEROK && same(b.Bytes, ghostPublicDER) && b.Type == "PUBLIC KEY"   #C19.x509-request-pem-of-public-der @C19
+//@   atcall encoding/pem.EncodeToMemory sets ghostPublicText []byte (b *pem.Block, out []byte) :: out
+//@   atcall encoding/pem.EncodeToMemory sets ghostPublicTextOK bool (b *pem.Block, out []byte) :: true
+//@   atcall golang.org/x/crypto/ssh.NewPublicKey requires (key any) :: key == signerPublic(signer)                          #C19.ssh-request-serialises-public-half @C19
+//@   atcall golang.org/x/crypto/ssh.NewPublicKey sets ghostPublicSSH ssh.PublicKey (key any, out ssh.PublicKey, err2 error) :: out
+//@   atcall golang.org/x/crypto/ssh.NewPublicKey sets ghostPublicSSHOK bool (key any, out ssh.PublicKey, err2 error) :: err2 == nil && key == signerPublic(signer)
+//@   atcall golang.org/x/crypto/ssh.MarshalAuthorizedKey requires (key ssh.PublicKey) :: ghostPublicSSHOK && key == ghostPublicSSH   #C19.ssh-request-line-of-public-key @C19
+//@   atcall golang.org/x/crypto/ssh.MarshalAuthorizedKey sets ghostPublicText []byte (key ssh.PublicKey, out []byte) :: out
+//@   atcall golang.org/x/crypto/ssh.MarshalAuthorizedKey sets ghostPublicTextOK bool (key ssh.PublicKey, out []byte) :: true
+//@   atcall doCertRequestInternal requires (client2 *http.Client, targetURL string, filedata string, ua string, lg log.DebugLogger) :: ghostPublicTextOK && filedata == bytesToStr(ghostPublicText)   #C19.request-body-is-the-public-text @C19
